@@ -2,7 +2,7 @@
 C09 — A written shard reads back every document and all metadata.  Property theorems.
 (The model is ZoektModel/C09/{Coders,Postings,Model}.lean, the statement ZoektModel/C09/Spec.lean.)
 -/
-import ZoektModel.C09.Lemmas
+import ZoektModel.C09.Branches
 namespace ZoektModel.C09
 open ZoektModel
 
@@ -53,6 +53,177 @@ theorem uvarint_roundtrip (n : Nat) (rest : Bytes) (hn : n < 2 ^ 64) :
     varints (putUvarint n ++ rest) = (varints rest).map (n :: ·) :=
   varints_put n rest hn
 
+/-! ### the composition: Add* → Write → read -/
+
+/-- the per-document clauses of the statement that `C09_roundtrip_partial` proves (everything `checkDoc` demands except the
+    rune-offset sections and the symbol metadata table) -/
+def fieldsOk (repo : Repo) (d : Doc) (o : DocOut) : Prop :=
+  o.name = d.name ∧
+  (rejected d = true → placeholderOk d o.content = true ∧ o.sections = []) ∧
+  (rejected d = false → o.content = d.content) ∧
+  o.branches = repo.branches.filter (d.branches.contains ·) ∧
+  o.checksum = be 8 (crc64 o.content).toNat ∧
+  o.language = expectLanguage d ∧
+  (d.category ≠ 0 → o.category = d.category) ∧
+  o.subRepoPath = d.subRepoPath ∧
+  o.sections = (effective d).symbols
+
+/-- size facts of a shard below the format's limits (4 GiB file, 2^32 documents) -/
+structure Small (repo : Repo) (docs : List Doc) (b : SB) : Prop where
+  ndocs : docs.length < 2 ^ 32
+  paths : (subRepoPaths repo).length < 2 ^ 32
+  runeSecs : 2 * b.runeDocSections.length < 2 ^ 64
+  syms : ∀ d ∈ docs, 2 * (effective d).symbols.length < 2 ^ 64 ∧ ∀ p ∈ (effective d).symbols, p.1 < 2 ^ 32 ∧ p.2 < 2 ^ 32
+
+theorem rejected_iff (d : Doc) : rejected d = true ↔ effSkip d ≠ 0 := by
+  unfold rejected effSkip
+  by_cases h1 : d.category = 0 ∧ d.content.contains 0 = true
+  · have hm : 0 ∈ d.content := by simpa using h1.2
+    simp [h1, hm, skipBinary]
+  · rw [if_neg h1]
+    constructor
+    · intro h
+      simp only [Bool.or_eq_true, Bool.and_eq_true, decide_eq_true_eq] at h
+      rcases h with h | h
+      · exact h
+      · exact absurd h h1
+    · intro h
+      simp [h]
+
+theorem effective_rejected (d : Doc) (h : rejected d = true) :
+    placeholderOk d (effective d).content = true ∧ (effective d).symbols = [] := by
+  have hs := (rejected_iff d).1 h
+  unfold effective
+  rw [if_pos hs]
+  refine ⟨?_, rfl⟩
+  unfold placeholderOk effSkip
+  by_cases h1 : d.category = 0 ∧ d.content.contains 0 = true
+  · have hm : 0 ∈ d.content := by simpa using h1.2
+    simp [h1, hm]
+  · unfold effSkip at hs
+    rw [if_neg h1] at hs ⊢
+    simp [hs]
+
+theorem effective_accepted (d : Doc) (h : rejected d = false) : (effective d).content = d.content := by
+  have hs : ¬ effSkip d ≠ 0 := by
+    intro hc
+    have := (rejected_iff d).2 hc
+    rw [h] at this
+    cases this
+  unfold effective
+  rw [if_neg hs]
+  split <;> rfl
+
+theorem effective_language (d : Doc) : (effective d).language = expectLanguage d := by
+  unfold effective
+  split
+  · rfl
+  · split <;> rfl
+
+theorem effective_category (d : Doc) (h : d.category ≠ 0) : (effective d).category = d.category := by
+  have : effCategory d = d.category := by unfold effCategory; rw [if_neg h]
+  unfold effective
+  split
+  · exact this
+  · split <;> exact this
+
+theorem encodeCategory_lt (c k : Nat) (h : encodeCategory c = some k) : k < 256 := by
+  unfold encodeCategory at h
+  split at h <;> first | (injection h with h; subst h; decide) | simp at h
+
+instance : Inhabited DocOut := ⟨⟨[], [], [], [], [], 0, [], [], [], []⟩⟩
+
+theorem mapM_some {α β} (f : α → Option β) (g : α → β) (l : List α) (h : ∀ a ∈ l, f a = some (g a)) :
+    l.mapM f = some (l.map g) := by
+  induction l with
+  | nil => rfl
+  | cons a r ih =>
+    rw [List.mapM_cons, h a (by simp), ih (fun x hx => h x (by simp [hx]))]
+    rfl
+
+/-- **C09_roundtrip_partial.** For every repository (≤ 64 distinct branches) and every document list that `ShardBuilder.Add`
+    accepts, reading the written sections back gives, document by document and in order: the same name; the same content,
+    or for a rejected document (skip reason given, or NUL content of an unclassified file) the "NOT-INDEXED" explanation
+    and no symbols; exactly the repository's branches the document is on; the crc64 of the stored content; the language;
+    the category; the sub-repository path; and the byte sections of its symbols sorted as `Add` sorted them.
+    Not covered here (validated by correspondence and the Go oracles): rune-offset sections, the symbol metadata table,
+    posting lists, and the byte-level TOC. -/
+theorem C09_roundtrip_partial (repo : Repo) (docs : List Doc) (b : SB) (mj rj : Bytes)
+    (hadd : SB.addAll repo (SB.new PB.fresh PB.fresh) docs = .ok b)
+    (hn : repo.branches.Nodup) (hl : repo.branches.length ≤ 64) (hs : Small repo docs b) :
+    ∃ outs, readAll (b.write mj rj).2 repo b.languageMap = some outs ∧ outs.length = docs.length ∧
+      ∀ (i : Nat) (d : Doc) (o : DocOut), docs[i]? = some d → outs[i]? = some o → fieldsOk repo d o := by
+  obtain ⟨recs, hlen, hrec, hrep⟩ := addAll_rep repo docs _ b [] (Rep.new _ _) hadd
+  simp only [List.nil_append] at hrep
+  -- every record comes from its document
+  have hof : ∀ i (hi : i < docs.length), RecOf repo docs[i] (recs.getD i default) := by
+    intro i hi
+    have hi' : i < recs.length := by omega
+    apply hrec i hi docs[i] _ (by simp [List.getElem?_eq_getElem hi])
+    simp [List.getD_eq_getElem?_getD, List.getElem?_eq_getElem hi']
+  have hbound : Bounded b recs := by
+    refine ⟨by rw [hlen]; exact hs.ndocs, hs.runeSecs, ?_⟩
+    intro r hr
+    obtain ⟨i, hi, rfl⟩ := List.getElem_of_mem hr
+    have hid : i < docs.length := by omega
+    have ho := hof i hid
+    have hg : recs.getD i default = recs[i] := by simp [List.getD_eq_getElem?_getD, List.getElem?_eq_getElem hi]
+    rw [hg] at ho
+    have hsy := hs.syms docs[i] (List.getElem_mem hid)
+    refine ⟨(branches_roundtrip _ _ _ hn hl ho.mask).2, ?_, encodeCategory_lt _ _ ho.cat, ?_, ?_⟩
+    · have := (indexOf?_some _ _ _ ho.subIdx []).1
+      have := hs.paths
+      omega
+    · rw [ho.secs]; exact hsy.1
+    · rw [ho.secs]; exact hsy.2
+  have hnum : numDocs (b.write mj rj).2 = recs.length := by
+    obtain ⟨_, _, _, _, _, _, f4, _⟩ := write_fields b mj rj
+    unfold numDocs
+    rw [f4, readBE8_writeBE8 _ (by
+      intro n hn'
+      rw [hrep.masks] at hn'
+      simp at hn'
+      obtain ⟨q, hq, rfl⟩ := hn'
+      exact (hbound.each q hq).1), hrep.masks]
+    simp
+  let g : Nat → DocOut := fun i => (readDoc (b.write mj rj).2 repo b.languageMap i).getD default
+  have hg : ∀ i ∈ List.range recs.length, readDoc (b.write mj rj).2 repo b.languageMap i = some (g i) := by
+    intro i hi
+    obtain ⟨o, ho, _⟩ := readDoc_rec b recs hrep hbound mj rj repo i (by simpa using hi)
+    simp [g, ho]
+  refine ⟨(List.range recs.length).map g, ?_, by simp [hlen], ?_⟩
+  · unfold readAll
+    rw [hnum]
+    exact mapM_some _ g _ hg
+  · intro i d o hd ho
+    have hi : i < docs.length := by
+      by_cases hc : i < docs.length
+      · exact hc
+      · simp [List.getElem?_eq_none (Nat.le_of_not_lt hc)] at hd
+    have hi' : i < recs.length := by omega
+    have hdi : docs[i] = d := by simpa [List.getElem?_eq_getElem hi] using hd
+    have hoi : g i = o := by simpa [List.getElem?_eq_getElem, hi'] using ho
+    obtain ⟨o', ho', hname, hcontent, hsecs, hsum, hcat, hsub, hbr, hlang⟩ := readDoc_rec b recs hrep hbound mj rj repo i hi'
+    have : g i = o' := by simp [g, ho']
+    rw [this] at hoi
+    subst hoi
+    have hr := hof i hi
+    rw [hdi] at hr
+    refine ⟨by rw [hname, hr.name], ?_, ?_, ?_, ?_, ?_, ?_, ?_, ?_⟩
+    · intro hrej
+      have := effective_rejected d hrej
+      rw [hcontent, hr.content, hsecs, hr.secs]
+      exact this
+    · intro hacc
+      rw [hcontent, hr.content, effective_accepted d hacc]
+    · rw [hbr, (branches_roundtrip _ _ _ hn hl hr.mask).1]
+    · rw [hsum, hcontent]
+    · rw [hlang, hr.lang, effective_language]
+    · intro hc
+      rw [hcat, category_roundtrip _ _ hr.cat, effective_category d hc]
+    · rw [hsub, (indexOf?_some _ _ _ hr.subIdx []).2]
+    · rw [hsecs, hr.secs]
+
 /-! ### non-vacuity -/
 
 example : fromSizedDeltas (toSizedDeltas [5, 300, 2, 4294967295, 0]) = some [5, 300, 2, 4294967295, 0] :=
@@ -65,5 +236,17 @@ example : unmarshalDocSections (marshalDocSections [⟨3, 9⟩, ⟨9, 200⟩]) =
   docsections_roundtrip _ (by decide)
 
 example : encodeCategory 8 = some 7 ∧ decodeCategory 7 = 8 := by decide
+
+/-- a concrete instance of the hypotheses of `C09_roundtrip_partial`: two branches, one sub-repository, two documents -/
+def exRepo : Repo := ⟨[[109], [100]], [[115]]⟩
+def exDocs : List Doc := [
+  { name := [97], content := [104, 105], branches := [[100]], subRepoPath := [], language := [71], langHint := [], category := 1,
+    catHint := 1, skip := 0, symbols := [(0, 1)], symMeta := [⟨[102], [], []⟩] },
+  { name := [98], content := [], branches := [[109], [100]], subRepoPath := [115], language := [], langHint := [80], category := 2,
+    catHint := 1, skip := 0, symbols := [], symMeta := [] }]
+
+example : (match SB.addAll exRepo (SB.new PB.fresh PB.fresh) exDocs with | .ok _ => true | _ => false) = true := by decide
+example : exRepo.branches.Nodup ∧ exRepo.branches.length ≤ 64 := by decide
+example : rejected ⟨[98], [0, 1], [], [], [], [], 0, 1, 0, [], []⟩ = true := by decide
 
 end ZoektModel.C09
